@@ -113,6 +113,16 @@ def _worker_main(conn, pid_name, repo):
         conn.send(('done',))
 
 
+def _cpu_seconds(pid):
+    """user + system CPU seconds used so far by process pid (0.0 if it cannot be read)."""
+    try:
+        with open('/proc/%d/stat' % pid) as f:
+            rest = f.read().rsplit(')', 1)[1].split()
+        return (int(rest[11]) + int(rest[12])) / float(os.sysconf('SC_CLK_TCK'))
+    except Exception:
+        return 0.0
+
+
 class Pool:
     def __init__(self, pid_name, repo, jobs, timeout, batch, fresh=False):
         self.fresh = fresh
@@ -193,6 +203,7 @@ class Pool:
                 elif tag == 's':
                     w['cur'] = msg[1]
                     w['t0'] = now
+                    w['cpu0'] = _cpu_seconds(w['proc'].pid)
                     h = self.worker_hist[w['wid']]
                     self.where[msg[1]] = (w['wid'], len(h))
                     h.append(msg[1])
@@ -204,7 +215,12 @@ class Pool:
                     done += 1
             # watchdog
             for conn, w in list(self.workers.items()):
-                if w['cur'] is not None and now - w['t0'] > self.timeout:
+                # The watchdog counts the CPU time of the worker, not wall time: a livelock burns CPU, a worker
+                # starved by other load on the machine does not, and a check must not alarm because the machine is
+                # busy.  Wall time is only a distant backstop (a case blocked without using CPU).
+                if w['cur'] is not None and (
+                        _cpu_seconds(w['proc'].pid) - w.get('cpu0', 0.0) > self.timeout
+                        or now - w['t0'] > max(6 * self.timeout, self.timeout + 1800)):
                     idx = w['cur']
                     try:
                         w['proc'].kill()
@@ -215,7 +231,7 @@ class Pool:
                     del self.workers[conn]
                     results[idx] = dict(
                         viol=[dict(sig='NONTERMINATION',
-                                   msg='case exceeded the %.0f s watchdog' % self.timeout)],
+                                   msg='case exceeded the %.0f s (CPU) watchdog' % self.timeout)],
                         stats={}, nontrivial=True, key=None)
                     done += 1
                     rest = [i for i in w['pending'] if i != idx]
@@ -413,7 +429,7 @@ def main(argv, here, repo):
 
     print('[%s] tier=%s seed=%d cases=%d jobs=%d repo=%s' % (pid, tier, seed, n, jobs, repo),
           flush=True)
-    pool = Pool(pid, repo, jobs, getattr(mod, 'CASE_TIMEOUT', 120),
+    pool = Pool(pid, repo, jobs, float(os.environ.get('VERIF_CASE_TIMEOUT', getattr(mod, 'CASE_TIMEOUT', 120))),
                 getattr(mod, 'BATCH', 8), fresh=getattr(mod, 'FRESH_WORKER_PER_BATCH', False))
     res_ordered = pool.run(
         ordered, progress=lambda d, m: print('  ... %d/%d' % (d, m), flush=True))
